@@ -13,14 +13,14 @@ Definition acc_okb (a : acc) : bool := (0 <=? a_off a) && (0 <=? a_len a) && (a_
 
 Inductive ev :=
 | EAcc (g : bool) (a : acc)                      (* access performed when the path condition g holds *)
-| ELoop (g : bool) (lo hi : Z) (f : Z -> acc)    (* for i in [lo, hi): access (f i) *)
+| ELoop (g : bool) (lo hi : Z) (f : Z -> list acc)   (* for i in [lo, hi): the accesses (f i), in order *)
 | ERej (g : bool) (exc pos : Z)                  (* early return with a Python exception set; pos = cursor offset then *)
 | ERet (g : bool) (res pos : Z).                 (* normal return; res = length of the bytes result (0 if none) *)
 
 Definition ev_safe (e : ev) : Prop :=
   match e with
   | EAcc g a => g = true -> acc_ok a
-  | ELoop g lo hi f => g = true -> forall i, lo <= i < hi -> acc_ok (f i)
+  | ELoop g lo hi f => g = true -> forall i, lo <= i < hi -> Forall acc_ok (f i)
   | _ => True
   end.
 Definition events_safe (es : list ev) : Prop := Forall ev_safe es.
@@ -31,11 +31,20 @@ Definition events_safe (es : list ev) : Prop := Forall ev_safe es.
      [2; id; 0] access id is out of bounds (execution stops there),  [3; 0; 0] no return reached. *)
 Definition acc_toks (a : acc) : list Z := [a_id a; a_off a; a_len a; a_size a].
 
-Fixpoint run_loop (n : nat) (i : Z) (f : Z -> acc) (k : list Z) : list Z :=
+(* accesses of one loop iteration; None = all in bounds, Some id = first failing access *)
+Fixpoint run_accs (l : list acc) : list Z * option Z :=
+  match l with
+  | [] => ([], None)
+  | a :: r => if acc_okb a then (let '(t, o) := run_accs r in (acc_toks a ++ t, o)) else (acc_toks a, Some (a_id a))
+  end.
+
+Fixpoint run_loop (n : nat) (i : Z) (f : Z -> list acc) (k : list Z) : list Z :=
   match n with
   | O => k
-  | S n' => if acc_okb (f i) then acc_toks (f i) ++ run_loop n' (i + 1) f k
-            else acc_toks (f i) ++ [2; a_id (f i); 0]
+  | S n' => match run_accs (f i) with
+            | (t, None) => t ++ run_loop n' (i + 1) f k
+            | (t, Some id) => t ++ [2; id; 0]
+            end
   end.
 
 Fixpoint run_events (es : list ev) : list Z :=
